@@ -341,7 +341,13 @@ func (v *value) export(environment string) esc.Value {
 // unexport creates a value from a Value. This is used when interacting with providers, as the Provider API works on
 // Values, but the evaluator needs values.
 func unexport(v esc.Value, x *expr) *value {
-	vv := &value{def: x, secret: v.Secret || x.secret, unknown: v.Unknown}
+	return unexportValue(v, x, false)
+}
+
+// unexportValue is the implementation of unexport. If secret is true, the value is part of a secret composite value
+// and is therefore secret itself.
+func unexportValue(v esc.Value, x *expr, secret bool) *value {
+	vv := &value{def: x, secret: v.Secret || x.secret || secret, unknown: v.Unknown}
 	switch pv := v.Value.(type) {
 	case nil:
 		vv.repr, vv.schema = nil, schema.Null().Schema()
@@ -354,14 +360,14 @@ func unexport(v esc.Value, x *expr) *value {
 	case []esc.Value:
 		a, items := make([]*value, len(pv)), make([]schema.Builder, len(pv))
 		for i, v := range pv {
-			uv := unexport(v, x)
+			uv := unexportValue(v, x, vv.secret)
 			a[i], items[i] = uv, uv.schema
 		}
 		vv.repr, vv.schema = a, schema.Tuple(items...).Schema()
 	case map[string]esc.Value:
 		m, properties := make(map[string]*value, len(pv)), make(schema.SchemaMap, len(pv))
 		for k, v := range pv {
-			uv := unexport(v, x)
+			uv := unexportValue(v, x, vv.secret)
 			m[k], properties[k] = uv, uv.schema
 		}
 		vv.repr, vv.schema = m, schema.Record(properties).Schema()
